@@ -12,9 +12,9 @@ from tools.vlib import Outcome
 from tools.props import c11_gen as G
 
 MANIFEST = {
-    "level_text": "Coq theorems (Properties/C11.v, no axioms) about a function-by-function Gallina transcription of validator_parser.rs (substring scanners over tokens.to_string(), the character-index/byte-index message slice with its panic, the five-step replace chain) and of schema_builder.rs (render_type, apply_*, escape_js_string): escape_js_string followed by JavaScript string-literal reading is the identity for every byte string; every parsed ValidatorAttributes value is rendered to a chain that reads back as exactly those constraints; on every list of attributes built from email/url flags and other validators (custom(..), must_match(..), required, nested, .. - inert exactly when their printed text contains none of email/url/length/range) around one length/range validator (any argument order, message bodies with escapes) the attribute loop returns exactly the fold of the declared components (C11_loop_exact_partial, C11_other_validators_condition_exact, C11_later_attrs_only_add), the replace chain is exact on literals with the five supported escapes (C11_unescape_exact_partial, threaded into the loop theorem by C11_loop_escaped_messages), a Vec field's chain reads back as z.array(<bare element>) + length methods for every readable element type (C11_exact_render_arrays), the text printed for a u64 bound denotes the declared decimal (C11_u64_bound_exact), and on canonical single length / range validators the conclusion of the full statement itself - no panic and the oracle accepts the chain - is proved (C11_full_canon_length_partial, C11_full_canon_range_partial); fields without #[validate] get the bare schema; a field's chain depends on its own attributes only; the boolean oracle is proved equivalent to its Prop statement; one refutation lemma with a computed witness per remaining known-finding class (eight), and positive statements on the witnesses of the two repaired ones (C11-5 multi-byte messages, C11-7 Option below Vec). The model is tied to /repo on every run by differential execution on generated structs (token strings, ValidatorAttributes, chains), and the extracted oracle (declared meta tree vs constraints read back from the emitted chain, exact decimal comparison, JS string decoding) is applied to the implementation's output.",
+    "level_text": "Coq theorems (Properties/C11.v, no axioms) about a function-by-function Gallina transcription of validator_parser.rs (substring scanners over tokens.to_string(), the character-index/byte-index message slice with its panic, the five-step replace chain) and of schema_builder.rs (render_type, apply_*, escape_js_string): escape_js_string followed by JavaScript string-literal reading is the identity for every byte string; every parsed ValidatorAttributes value is rendered to a chain that reads back as exactly those constraints; on every list of attributes built from email/url flags and other validators (custom(..), must_match(..), required, nested, .. - inert exactly when their printed text contains none of email/url/length/range) around one length/range validator (any argument order, message bodies with escapes) the attribute loop returns exactly the fold of the declared components (C11_loop_exact_partial, C11_other_validators_condition_exact, C11_later_attrs_only_add), the replace chain is exact on literals with the five supported escapes (C11_unescape_exact_partial, threaded into the loop theorem by C11_loop_escaped_messages), a Vec field's chain reads back as z.array(<bare element>) + length methods for every readable element type (C11_exact_render_arrays), the text printed for a u64 bound denotes the declared decimal (C11_u64_bound_exact), and the conclusion of the full statement itself - no panic and the oracle accepts the chain - is proved on the loop grammar for String and Vec<T> fields with one length validator among arbitrary flag / other-validator attributes, on numeric fields with one range validator among other-validator attributes (for every f64 printer that is exact on the declared bounds), on String fields with flags and other validators only (C11_full_loop_string_partial, C11_full_loop_vec_partial, C11_full_loop_num_partial, C11_full_flags_string_partial, C11_full_canon_length_partial, C11_full_canon_length_vec_partial, C11_full_canon_range_partial); fields without #[validate] get the bare schema; a field's chain depends on its own attributes only; the boolean oracle is proved equivalent to its Prop statement; one refutation lemma with a computed witness per remaining known-finding class (eight), and positive statements on the witnesses of the two repaired ones (C11-5 multi-byte messages, C11-7 Option below Vec). The model is tied to /repo on every run by differential execution on generated structs (token strings, ValidatorAttributes, chains), and the extracted oracle (declared meta tree vs constraints read back from the emitted chain, exact decimal comparison, JS string decoding) is applied to the implementation's output.",
     "design_ref": "DESIGN.md section 5 C11",
-    "level_note": "Partial. Proved for all inputs: C11_escape_roundtrip (every byte string); C11_exact_render_partial (every ValidatorAttributes value with number-text bounds, any number of Option wrappers, string / number / array-of-string fields: the chain reads back as exactly its constraints); C11_array_elements_bare (EVERY element type: a Vec field's chain is z.array(<bare element schema>) + length methods) with C11_exact_render_arrays (round 7: read back for EVERY readable element type - string/number/boolean/void primitives, Option, Vec, identifier-named custom types, arbitrarily nested - by induction over read_schema with symbolic fuel, Proofs/C11Arr.v; only the z.unknown() /* comment */ form of an unknown primitive and non-identifier custom names are outside) and C11_array_element_no_constraint (the element schema never carries a constraint); C11_none; C11_not_misattached; C11_oracle_exact (boolean oracle <-> Prop C11_holds). Scanning half (dispf = f64 parse+print stays a Section variable throughout): C11_exact_scan_partial - one length(..)/range(..) validator with any subset of min, max, message in ANY of the six orders, bounds any number texts, message (round 7) ANY double-quoted source body on which the closing-quote scan ends at the literal's own quote (closes: every double quote escaped, not ending inside an escape; escapes and multi-byte allowed), without closing parenthesis / validator keyword: the scanners return exactly the declared bounds and unescape(body) as the message (C11_plain_bodies_instance: the plain bodies of the earlier rounds are an instance with unescape body = body; C11_loop_escaped_messages: a lit_ok literal is admissible, unescape gives its value and that is the value rust_body_value assigns to the declared literal); C11_loop_exact_partial - ANY list of attributes in any order, each #[validate(sides.., length|range(..), sides..)] (sides = any number, before and after, of email / url flags and - round 7 - OTHER validators IOther name [(k = lit, ..)]: custom(function = ..), must_match(other = ..), required, nested ..; exact side condition side_ok/inert: the printed item text contains none of email, url, length, range; C11_other_validators_condition_exact + C11_keyword_in_item: if an item does contain one, the flag is set / the slot is occupied, so the condition cannot be weakened), #[validate(sides..)], #[validate()], #[validate] or a non-validate attribute: parse_validator_attributes does not panic and equals the left fold of the per-attribute effects, Some iff a validate attribute is present; C11_later_attrs_only_add - attributes that declare no length (range) leave the length (range) parsed so far untouched and flags stay set (the loop the seeds C11-1 / C11-4 break); C11_unescape_exact_partial + C11_message_escapes_partial - message literals with escapes backslash + double quote / single quote / n / t / backslash (an escaped backslash not directly before a plain n, t, single quote): the five-step replace chain computes exactly the literal's value and parse_message returns it wherever the literal stands; C11_exact_canon_partial composes scanning and rendering for String / numeric / Vec<String> fields. Round 7: C11_u64_bound_exact (every u64 literal, leading zeros included: parse_u64 prints show_N (n_of_digits lit), whose dec_of_text equals dec_of_text lit = dec_of_num of the declaration), C11_show_N_value / C11_show_N_reads (dec_of_text (show_N n) has value n; via DecimalN.Unsigned.to_of, Proofs/C11Dec.v); C11_full_canon_length_partial / C11_full_canon_range_partial - the CONCLUSION of C11_exact_full_statement (exists v chain, field_chain = Ok (v, chain) and c11_field_ok f chain = true) for one canonical length validator with u64 bounds on String / Vec<String> and one canonical range validator on a numeric field (premise okb dispf: dispf prints a number text denoting the declared decimal = complement of class C11-9), any k Options, any argument order, messages with msg_agrees (lit_value body = unescape body: holds on the escape sub-language and on plain bodies). NOT proved (kept in Definition C11_exact_full_statement, enforced at run time on every generated case outside the eight classes): the oracle-level conclusion for the whole loop grammar (several attributes / side items: C11_loop_exact_partial gives the parsed ValidatorAttributes, the step expected f = constraints of the fold is not done; needs count <= 1 per kind from in_domain); derivation of the theorems' premises from in_domain / lits_consistent / kf_any = false for arbitrary fields (messages in single quotes, raw strings, arguments code = .., equal = .. outside C11-10, arbitrary spacing are outside the canonical grammar); inertness is stated on the printed item text, the equivalent condition on the pieces (name, keys, literals) is not derived; escaped backslash directly before a plain single quote (right value, not proved atom by atom); email(message = ..) forms (class C11-8); f64: dispf stays a Section variable (the OCaml f64 printer is compared with Rust on every case, not proved); unknown-primitive comment schemas in array elements. Eight C11_kf*_refuted witnesses (C11-10 length(equal = n) dropped, added with the argument-order stream), two C11_fixed*_ok, C11_classes_separate. f64 parse/Display is hand-written OCaml in the runner (compared with the harness on every case). Trusted: syn/proc_macro2 printing (token strings compared on every case), python Rust-source printer (literal values cross-checked against syn::LitStr::value), the Zod/ECMAScript reading in Spec/C11Spec.v, ASCII-only trim().",
+    "level_note": "Partial. Proved for all inputs: C11_escape_roundtrip (every byte string); C11_exact_render_partial (every ValidatorAttributes value with number-text bounds, any number of Option wrappers, string / number / array-of-string fields: the chain reads back as exactly its constraints); C11_array_elements_bare (EVERY element type: a Vec field's chain is z.array(<bare element schema>) + length methods) with C11_exact_render_arrays (round 7: read back for EVERY readable element type - string/number/boolean/void primitives, Option, Vec, identifier-named custom types, arbitrarily nested - by induction over read_schema with symbolic fuel, Proofs/C11Arr.v; only the z.unknown() /* comment */ form of an unknown primitive and non-identifier custom names are outside) and C11_array_element_no_constraint (the element schema never carries a constraint); C11_none; C11_not_misattached; C11_oracle_exact (boolean oracle <-> Prop C11_holds). Scanning half (dispf = f64 parse+print stays a Section variable throughout): C11_exact_scan_partial - one length(..)/range(..) validator with any subset of min, max, message in ANY of the six orders, bounds any number texts, message (round 7) ANY double-quoted source body on which the closing-quote scan ends at the literal's own quote (closes: every double quote escaped, not ending inside an escape; escapes and multi-byte allowed), without closing parenthesis / validator keyword: the scanners return exactly the declared bounds and unescape(body) as the message (C11_plain_bodies_instance: the plain bodies of the earlier rounds are an instance with unescape body = body; C11_loop_escaped_messages: a lit_ok literal is admissible, unescape gives its value and that is the value rust_body_value assigns to the declared literal); C11_loop_exact_partial - ANY list of attributes in any order, each #[validate(sides.., length|range(..), sides..)] (sides = any number, before and after, of email / url flags and - round 7 - OTHER validators IOther name [(k = lit, ..)]: custom(function = ..), must_match(other = ..), required, nested ..; exact side condition side_ok/inert: the printed item text contains none of email, url, length, range; C11_other_validators_condition_exact + C11_keyword_in_item: if an item does contain one, the flag is set / the slot is occupied, so the condition cannot be weakened), #[validate(sides..)], #[validate()], #[validate] or a non-validate attribute: parse_validator_attributes does not panic and equals the left fold of the per-attribute effects, Some iff a validate attribute is present; C11_later_attrs_only_add - attributes that declare no length (range) leave the length (range) parsed so far untouched and flags stay set (the loop the seeds C11-1 / C11-4 break); C11_unescape_exact_partial + C11_message_escapes_partial - message literals with escapes backslash + double quote / single quote / n / t / backslash (an escaped backslash not directly before a plain n, t, single quote): the five-step replace chain computes exactly the literal's value and parse_message returns it wherever the literal stands; C11_exact_canon_partial composes scanning and rendering for String / numeric / Vec<String> fields. Round 7: C11_u64_bound_exact (every u64 literal, leading zeros included: parse_u64 prints show_N (n_of_digits lit), whose dec_of_text equals dec_of_text lit = dec_of_num of the declaration), C11_show_N_value / C11_show_N_reads (dec_of_text (show_N n) has value n; via DecimalN.Unsigned.to_of, Proofs/C11Dec.v); C11_full_canon_length_partial / C11_full_canon_range_partial - the CONCLUSION of C11_exact_full_statement (exists v chain, field_chain = Ok (v, chain) and c11_field_ok f chain = true) for one canonical length validator with u64 bounds on String / Vec<String> and one canonical range validator on a numeric field (premise okb dispf: dispf prints a number text denoting the declared decimal = complement of class C11-9), any k Options, any argument order, messages with msg_agrees (lit_value body = unescape body: holds on the escape sub-language and on plain bodies); C11_full_canon_length_vec_partial (Vec<T>, every readable T); C11_full_loop_string_partial - the same conclusion on the LOOP GRAMMAR: attribute lists A ++ [#[validate(pr.., length(..), po..)]] ++ B with A, B any lists of attributes without length/range (#[validate(sides..)], #[validate()], #[validate], non-validate), sides = email/url flags and inert other validators, at most one email and one url over all side items (cnt <= 1, the in_domain clause), String field under k Options; C11_full_loop_vec_partial (same lists on Vec<T>, readable T, no email/url among the sides); C11_full_flags_string_partial (String fields without length: flags and other validators only, e.g. #[validate(email)]); Example C11_ex_full_loop_premises computes that such a field satisfies in_domain, lits_consistent and kf_any = false, i.e. the sub-domain lies inside the domain of the full statement. C11_full_loop_num_partial (the same lists around one RANGE validator on a numeric field, no flags, premise okb dispf on the bounds). NOT proved (kept in Definition C11_exact_full_statement, enforced at run time on every generated case outside the eight classes): two length/range validators on one field (a second one of the same kind is outside in_domain; length + range on one field is outside item_ok for every field kind, so nothing in-domain is lost there); Vec fields without length and numeric fields without range (other validators only); fields whose attributes are all non-validate at oracle level (C11_none gives the bare chain); derivation of the theorems' premises from in_domain / lits_consistent / kf_any = false for arbitrary fields (messages in single quotes, raw strings, arguments code = .., equal = .. outside C11-10, arbitrary spacing are outside the canonical grammar); inertness is stated on the printed item text, the equivalent condition on the pieces (name, keys, literals) is not derived; escaped backslash directly before a plain single quote (right value, not proved atom by atom); email(message = ..) forms (class C11-8); f64: dispf stays a Section variable (the OCaml f64 printer is compared with Rust on every case, not proved); unknown-primitive comment schemas in array elements. Eight C11_kf*_refuted witnesses (C11-10 length(equal = n) dropped, added with the argument-order stream), two C11_fixed*_ok, C11_classes_separate. f64 parse/Display is hand-written OCaml in the runner (compared with the harness on every case). Trusted: syn/proc_macro2 printing (token strings compared on every case), python Rust-source printer (literal values cross-checked against syn::LitStr::value), the Zod/ECMAScript reading in Spec/C11Spec.v, ASCII-only trim().",
     "technique": "Rocq/Coq proof over hand-written model + correspondence check (extracted OCaml vs Rust harness and real CLI)"
 }
 
